@@ -4,6 +4,7 @@ package main
 
 import (
 	"fmt"
+	"go/constant"
 	"sort"
 	"strings"
 
@@ -236,4 +237,166 @@ func naturalLoops(fn *ssa.Function) []map[*ssa.BasicBlock]bool {
 		}
 	}
 	return out
+}
+
+// build_callbacks_restartable (root package): bytemap.Build is an external function that calls the builder function it is
+// given more than once (once to size the map and once to fill it; its contract promises no particular number of calls).
+// A builder that accumulates into a variable it captures by reference therefore accumulates once per call. The
+// obligation, one per captured variable that the builder (or a function literal nested in it) assigns a non-constant
+// value: the first thing the builder does with that variable, in its entry block, is to assign it a constant, so that
+// what the variable holds after Build does not depend on how often Build called the builder.
+func init() {
+	structuralChecks["build_callbacks_restartable"] = func(s *Session) ([]*Obligation, error) {
+		var out []*Obligation
+		keys := []string{}
+		for k := range s.fns {
+			keys = append(keys, k)
+		}
+		sort.Strings(keys)
+		nSites := 0
+		for _, k := range keys {
+			fn := s.fns[k]
+			if fn == nil || len(fn.Blocks) == 0 || fn.Pkg == nil || fn.Pkg.Pkg.Path() != "github.com/getlantern/zenodb" {
+				continue
+			}
+			for _, b := range fn.Blocks {
+				for _, in := range b.Instrs {
+					c, ok := in.(*ssa.Call)
+					if !ok {
+						continue
+					}
+					callee := c.Call.StaticCallee()
+					if callee == nil || callee.Pkg == nil || callee.Pkg.Pkg.Path() != "github.com/getlantern/bytemap" || callee.Name() != "Build" || len(c.Call.Args) == 0 {
+						continue
+					}
+					nSites++
+					mc, ok := c.Call.Args[0].(*ssa.MakeClosure)
+					if !ok {
+						out = append(out, structObl(fmt.Sprintf("build_callbacks_restartable.%s.builder", k), "the builder handed to bytemap.Build is a function literal", false, "the builder is not a function literal: cannot enumerate what it assigns"))
+						continue
+					}
+					cl := mc.Fn.(*ssa.Function)
+					for i, bind := range mc.Bindings {
+						a, ok := bind.(*ssa.Alloc)
+						if !ok {
+							continue
+						}
+						fv := cl.FreeVars[i]
+						if !assignsNonConst(cl, fv, map[*ssa.Function]bool{}) {
+							continue
+						}
+						name := a.Comment
+						okReset := false
+						detail := fmt.Sprintf("the builder %s accumulates into the captured variable %s without first resetting it: bytemap.Build calls the builder twice, so everything it adds is added twice", cl.Name(), name)
+						if len(cl.Blocks) > 0 {
+							for _, ii := range cl.Blocks[0].Instrs {
+								uses := false
+								for _, op := range ii.Operands(nil) {
+									if op != nil && *op == ssa.Value(fv) {
+										uses = true
+									}
+								}
+								if !uses {
+									continue
+								}
+								if st, ok := ii.(*ssa.Store); ok && st.Addr == ssa.Value(fv) {
+									if _, isConst := st.Val.(*ssa.Const); isConst {
+										okReset = true
+									}
+								}
+								break
+							}
+						}
+						out = append(out, structObl(fmt.Sprintf("build_callbacks_restartable.%s.%s", k, name), "a builder handed to bytemap.Build resets what it accumulates before accumulating", okReset, detail))
+					}
+				}
+			}
+		}
+		if nSites == 0 {
+			return nil, fmt.Errorf("build_callbacks_restartable: no call of bytemap.Build found in the root package: enumeration broken")
+		}
+		return out, nil
+	}
+}
+
+// assignsNonConst reports whether fn, or a function literal nested in it that captures the same cell, stores a
+// non-constant value into the cell fv.
+func assignsNonConst(fn *ssa.Function, fv ssa.Value, seen map[*ssa.Function]bool) bool {
+	if seen[fn] {
+		return false
+	}
+	seen[fn] = true
+	for _, b := range fn.Blocks {
+		for _, in := range b.Instrs {
+			switch x := in.(type) {
+			case *ssa.Store:
+				if x.Addr == fv {
+					if _, isConst := x.Val.(*ssa.Const); !isConst {
+						return true
+					}
+				}
+			case *ssa.MakeClosure:
+				inner := x.Fn.(*ssa.Function)
+				for i, bind := range x.Bindings {
+					if bind == fv && assignsNonConst(inner, inner.FreeVars[i], seen) {
+						return true
+					}
+				}
+			}
+		}
+	}
+	return false
+}
+
+// sql_units_positive: the package variable sql.unitMap is built by a map literal in the package initialiser and never
+// assigned elsewhere (const_global); every value the literal stores is a positive constant. This discharges, by
+// enumeration, the invariant allvals_positive(unitMap) that ParseDuration's division by a looked-up unit relies on.
+func init() {
+	structuralChecks["sql_units_positive"] = func(s *Session) ([]*Obligation, error) {
+		fn := s.fns["sql.init"]
+		if fn == nil {
+			return nil, fmt.Errorf("contract target missing: sql.init")
+		}
+		var theMap ssa.Value
+		for _, b := range fn.Blocks {
+			for _, in := range b.Instrs {
+				if st, ok := in.(*ssa.Store); ok {
+					if g, ok := st.Addr.(*ssa.Global); ok && g.Name() == "unitMap" {
+						if theMap != nil {
+							return []*Obligation{structObl("sql_units_positive", "every unit of sql.unitMap is positive", false, "unitMap is assigned more than once in the package initialiser")}, nil
+						}
+						theMap = st.Val
+					}
+				}
+			}
+		}
+		if theMap == nil {
+			return nil, fmt.Errorf("sql_units_positive: no store to unitMap in sql.init: enumeration broken")
+		}
+		if _, ok := theMap.(*ssa.MakeMap); !ok {
+			return []*Obligation{structObl("sql_units_positive", "every unit of sql.unitMap is positive", false, "unitMap is not initialised by a map literal")}, nil
+		}
+		n := 0
+		okAll := true
+		detail := ""
+		for _, ref := range *theMap.Referrers() {
+			switch x := ref.(type) {
+			case *ssa.MapUpdate:
+				n++
+				c, isConst := x.Value.(*ssa.Const)
+				if !isConst || c.Value == nil || constant.Sign(c.Value) <= 0 {
+					okAll = false
+					detail = fmt.Sprintf("unit %s of sql.unitMap is not a positive constant (%s): ParseDuration divides by it", x.Key, x.Value)
+				}
+			case *ssa.Store, *ssa.DebugRef:
+			default:
+				okAll = false
+				detail = fmt.Sprintf("the map literal of sql.unitMap is used by %s in the package initialiser", ref)
+			}
+		}
+		if n == 0 {
+			return nil, fmt.Errorf("sql_units_positive: the map literal has no entries: enumeration broken")
+		}
+		return []*Obligation{structObl("sql_units_positive", fmt.Sprintf("every one of the %d units of sql.unitMap is a positive constant", n), okAll, detail)}, nil
+	}
 }
